@@ -194,8 +194,9 @@ class ReactionSystem(object):
             except AttributeError:
                 irrev_rxns.append(r)
         irrev_rsys = ReactionSystem(irrev_rxns, self.substances, **kwargs)
-        all_r = irrev_rsys.all_reac_stoichs()
-        all_p = irrev_rsys.all_prod_stoichs()
+        shape = (len(irrev_rxns), len(irrev_rsys.substances))  # (also without reactions)
+        all_r = irrev_rsys.all_reac_stoichs().reshape(shape)
+        all_p = irrev_rsys.all_prod_stoichs().reshape(shape)
         if np.any(all_r < 0) or np.any(all_p < 0):
             raise ValueError("Expected positive stoichiometric coefficients")
         net = all_p - all_r
